@@ -526,7 +526,10 @@ class Polyhedron(Shape3D):
         if centered:
             simplices -= self.center
 
-        volumes = np.abs(np.linalg.det(simplices) / 6)
+        # Signed tetrahedron volumes: tetrahedra seen from behind must cancel, which
+        # an absolute value would prevent for solids that are not star-shaped.
+        volumes = np.linalg.det(simplices) / 6
+        volumes *= np.sign(np.sum(volumes))
 
         def triangle_integrate(f):
             r"""Integrate f over the simplices.
